@@ -14,6 +14,7 @@ use crate::variant::*;
 // Rust 1.14.0 requires the following despite the asterisk above.
 use super::in_inclusive_range32;
 
+#[cfg_attr(feature = "hsivonen_encoding_rs_verif", derive(Debug, Clone, PartialEq, Eq, Hash))]
 pub struct Big5Decoder {
     lead: Option<u8>,
 }
@@ -164,6 +165,7 @@ impl Big5Decoder {
         ascii_punctuation = false);
 }
 
+#[cfg_attr(feature = "hsivonen_encoding_rs_verif", derive(Debug, Clone, PartialEq, Eq, Hash))]
 pub struct Big5Encoder;
 
 impl Big5Encoder {
